@@ -226,7 +226,10 @@ class AbstractDateTime(AnyAtomicType):
         raise NotImplementedError
 
     def __hash__(self) -> int:
-        return hash((self._dt, self._year))
+        try:
+            return hash(self.todelta())  # the instant, as __eq__ compares instants
+        except OverflowError:
+            return hash((self._dt, self._year))
 
     def __eq__(self, other: object) -> bool:
         return self._compare(other, operator.eq)
